@@ -81,7 +81,8 @@ class Scheduler:
         """
         if isinstance(event, DelayedEvent):
             if event.delay > 0:
-                event.delay -= dt
+                # count down on the time grid: 0.7 - 7*0.1 is 1.1e-16, not 0, in floating point
+                event.delay = round(event.delay - dt, 9)
                 self.delayed_events += [event]
                 return None
         return event
